@@ -53,8 +53,7 @@ def observe(root):
         elif nm == "Item":
             items += 1
         elif nm == "Reference":
-            refs.append(node)
-            ref = len(refs)
+            ref = []  # identified by the first token inside it (empty uses of a named reference come and go)
         elif nm == "Table":
             rows = [r for r in node.children if type(r).__name__ == "Row"]
             if len(rows) >= 2 and max((len([c for c in r.children if type(c).__name__ == "Cell"]) for r in rows), default=0) >= 2:
@@ -62,16 +61,21 @@ def observe(root):
         if nm == "Text":
             for t in X.TOKEN.findall(node.caption or ""):
                 order.append(t)
+                if isinstance(ref, list):
+                    ref.append(t)
                 info[t] = (secs, items, ref, bigtable)
             return
         if nm in X.LINK_CLASSES and not node.children:
             for t in X.TOKEN.findall((getattr(node, "target", "") or "").lower()):
                 order.append(t)
+                if isinstance(ref, list):
+                    ref.append(t)
                 info[t] = (secs, items, ref, bigtable)
         for i, c in enumerate(node.children):
             rec(c, secs, items, ref, bigtable, node, i)
 
     rec(root, (), 0, 0, False, None, 0)
+    info = {t: (v[0], v[1], (v[2][0] if v[2] else 0) if isinstance(v[2], list) else v[2], v[3]) for t, v in info.items()}
     return order, info
 
 
@@ -92,10 +96,16 @@ def under_table(root):
     return out
 
 
+SEQ_BLOCKS = ["h2", "p", "p-italic", "p-link-caption", "p-ref", "p-ref-named", "ul-ref-named", "p-ref-2para", "ul", "ul-ol", "dl", "table-2x2",
+              "table-header", "table-caption", "table-list", "table-nested", "pre", "table-sparse-last"]
+
+
 class C07(InputProp):
     id = "C07"
     rule = ("every in-domain document of grammar G up to the block bound x spelling variants; differential oracle on the same tree before/after "
-            "clean_all(): token sequence, section path, item depth, reference, table membership; distinct = distinct cleaned token/position lists")
+            "clean_all(): token sequence, section path, item depth, reference, table membership; plus cleaner histories: every ordered pair of "
+            "one-block articles cleaned by ONE cleaner (sequential reuse as in the PDF writer, and as a Book), compared with fresh cleaners; "
+            "distinct = distinct cleaned token/position lists")
     assumptions = ("documents far below the cleaner's size heuristics and free of its documented removal triggers",
                    "a heading token belongs to its own section (the section caption is part of the path)")
     chunk = 300
@@ -112,13 +122,69 @@ class C07(InputProp):
             fams = [DomainSpace(G.DocSpace(2, variants=["plain", "html", "tight"]), "g2"), DomainSpace(G.DocSpace(3, names=CORE, variants=["plain"]), "g3core")]
         else:
             fams = [DomainSpace(G.DocSpace(2), "g2"), DomainSpace(G.DocSpace(3, variants=["plain", "tight"]), "g3")]
+        # histories of ONE cleaner: the PDF writer keeps a single TreeCleaner and cleans article after article with it, and a
+        # Book is cleaned child by child in one call.  Every ordered pair of one-block articles x both ways of reuse.
+        seqnames = [n for n in (G.LIBNAMES if tier != "quick" else SEQ_BLOCKS) if in_domain((n,))]
+        fams.append(Product(seqnames, seqnames, ["reuse", "book"], name="cleaner-history"))
         self.space = Concat(*fams)
 
     def describe(self, case):
+        if case[0] == "cleaner-history":
+            return {"first_article": case[1][0], "second_article": case[1][1], "mode": case[1][2],
+                    "wikitext": [G.render(((case[1][0],), "plain")), G.render(((case[1][1],), "plain"))]}
         fam, (names, variant) = case
         return {"blocks": names, "variant": variant, "wikitext": G.render((names, variant))}
 
+    def run_history(self, c):
+        """differential oracle: what a cleaner that has already cleaned article A makes of article B must be what a fresh
+        cleaner makes of B (and of A), for the sequential reuse of the PDF writer and for a Book of both"""
+        na, nb, mode = c
+        ta, tb = G.render(G.build((na,)), "plain"), G.render(G.build((nb,)), "plain")
+        from mwlib.parser import nodes
+
+        def tree(title, text):
+            t = self.parse(title=title, raw=text, wikidb=self.db, lang="en")
+            self.advtree.build_advanced_tree(t)
+            return t
+        viol = []
+        with contextlib.redirect_stdout(io.StringIO()), contextlib.redirect_stderr(io.StringIO()):
+            try:
+                ref = {}
+                for title, text in (("One", ta), ("Two", tb)):
+                    t = tree(title, text)
+                    self.treecleaner.TreeCleaner(t, save_reports=True).clean_all()
+                    ref[title] = observe(t)
+                a, b = tree("One", ta), tree("Two", tb)
+                if mode == "reuse":
+                    tc = self.treecleaner.TreeCleaner(a, save_reports=True)
+                    tc.clean_all()
+                    tc.tree = b
+                    tc.clean_all()
+                else:
+                    book = nodes.Book()
+                    book.children = [a, b]
+                    self.advtree.build_advanced_tree(book)
+                    tc = self.treecleaner.TreeCleaner(book, save_reports=True)
+                    tc.clean_all()
+                errs = [r for r in tc.get_reports() if "ERROR" in str(r)]
+                got = {"One": observe(a), "Two": observe(b)}
+            except Exception as e:
+                return {"key": "exc", "viol": [{"sig": "raises:" + exc_signature(e), "msg": "%s of %r, %r raised %r" % (mode, ta, tb, e)}]}
+        if errs:
+            viol.append({"sig": "history-error|%s" % mode, "msg": "cleaner reports %r (%s of %r then %r)" % (errs[:1], mode, ta, tb)})
+        for title, text, nm in (("One", ta, na), ("Two", tb, nb)):
+            if got[title] != ref[title]:
+                o1, o2 = ref[title][0], got[title][0]
+                lost = [t for t in o1 if t not in o2]
+                what = "lost %r" % lost if lost else "tokens/positions %r instead of %r" % (got[title], ref[title])
+                viol.append({"sig": "history|%s|%s" % (mode, nm), "msg": "article %s (%r) cleaned %s: %s; a fresh cleaner keeps them (other article: %r)" % (
+                    title, text, "by a cleaner that cleaned another article before" if mode == "reuse" else "as part of a book", what,
+                    tb if title == "One" else ta)})
+        return {"key": ("hist", mode, tuple(got["Two"][0]), tuple(sorted(got["Two"][1].items()))), "steps": 4, "viol": viol}
+
     def run_case(self, case):
+        if case[0] == "cleaner-history":
+            return self.run_history(case[1])
         fam, (names, variant) = case
         doc = G.build(names)
         text = G.render(doc, variant)
